@@ -152,6 +152,11 @@ def check(case):
         for k in range(2):
             worst = max(worst, _cmp(Fc[k], ref[k], scL[k], tol, "consistency", "shallowwater/%s F(W,W) eq %d" % (flux, k)))
         F = num(hL, uL, hR, uR)
+        # a flux is a function of the two states of ONE face: every pair evaluated alone gives the value it has inside the batch
+        for i in sorted(set([0, len(hL) // 2, len(hL) - 1])):
+            Fi = num(hL[i:i + 1], uL[i:i + 1], hR[i:i + 1], uR[i:i + 1])
+            for k in range(2):
+                worst = max(worst, _cmp(Fi[k], F[k][i:i + 1], scales[k][i:i + 1], tol, "elementwise", "shallowwater/%s eq %d: pair %d alone vs inside an array of %d pairs" % (flux, k, i, len(hL))))
         Fm = num(hR, -uR, hL, -uL)
         worst = max(worst, _cmp(Fm[0], -F[0], scales[0], tol, "mirror", "shallowwater/%s depth flux" % flux))
         worst = max(worst, _cmp(Fm[1], F[1], scales[1], tol, "mirror", "shallowwater/%s momentum flux" % flux))
@@ -203,6 +208,10 @@ def check(case):
         F2 = [np.asarray(x, dtype=float) for x in model.numflux(flux, argL, argR)]
         require(all(np.array_equal(a, b) for a, b in zip(argL + argR, [rL, uL, pL, rR, uR, pR])), "numflux-mutates-arguments", "euler1d/%s modified its argument arrays" % flux)
         require(all(np.array_equal(a, b) for a, b in zip(F, F2)), "numflux-repeatable", "euler1d/%s gives different results on identical calls" % flux)
+        for i in sorted(set([0, len(rL) // 2, len(rL) - 1])):
+            Fi = num(rL[i:i + 1], uL[i:i + 1], pL[i:i + 1], rR[i:i + 1], uR[i:i + 1], pR[i:i + 1])
+            for k in range(3):
+                worst = max(worst, _cmp(Fi[k], F[k][i:i + 1], scales[k][i:i + 1], tol, "elementwise", "euler1d/%s eq %d: pair %d alone vs inside an array of %d pairs" % (flux, k, i, len(rL))))
         Fm = num(rR, -uR, pR, rL, -uL, pL)
         for k, sgn in ((0, -1.0), (1, 1.0), (2, -1.0)):
             worst = max(worst, _cmp(Fm[k], sgn * F[k], scales[k], tol, "mirror", "euler1d/%s eq %d" % (flux, k)))
